@@ -34,9 +34,10 @@ def main():
             continue
         try:
             fired, errors = {}, {}
-            for pid in props:
-                env = dict(os.environ, VERIF_NO_EVIDENCE='1')
-                out = sh('/venv/bin/python', os.path.join(HERE, 'check.py'), pid, '--tier', 'quick')
+            from concurrent.futures import ThreadPoolExecutor
+            with ThreadPoolExecutor(16) as ex:
+                outs = list(ex.map(lambda pid: sh('/venv/bin/python', os.path.join(HERE, 'check.py'), pid, '--tier', 'quick'), props))
+            for pid, out in zip(props, outs):
                 lines = [l for l in out.stdout.splitlines() if l.startswith('  ')]
                 if out.returncode == 1:
                     fired[pid] = [l.strip()[:260] for l in lines]
